@@ -1423,6 +1423,13 @@ class SyncObj(object):
                 for i, consumer in enumerate(self.__consumers):
                     consumer._deserialize(consumersData[i])
 
+            if not clearJournal:
+                # A journal that still reaches back beyond the dump (the node stopped before it
+                # was trimmed) is trimmed to the dump's position instead of being thrown away.
+                dumpEntries = self.__getEntries(data[2][1], 2)
+                if len(dumpEntries) == 2 and dumpEntries[0] == data[2] and dumpEntries[1] == data[1]:
+                    self.__deleteEntriesTo(data[2][1])
+
             if clearJournal or \
                     len(self.__raftLog) < 2 or \
                     self.__raftLog[0] != data[2] or \
